@@ -696,10 +696,16 @@ def run_rq_config(cfg, T):
             else:
                 step = "build_context"
                 cxs = [build_context(pc["abs"], list(pc["ts"]) if pc["ts"] is not None else None) for pc in cfg["contexts"]]
+                if len(cxs) >= 2 and len(cxs) % 3 != 1:
+                    # contexts that already carry an ID (e.g. taken from an earlier association's accepted_contexts):
+                    # associate() must still hand out distinct odd IDs
+                    cxs[0].context_id = 3
+                    cxs[-1].context_id = 1
+                    T.bump("rq_lists_with_stale_context_ids")
                 if cxs and len(cxs) < 128 and len(cxs) % 2 == 0:
                     # the same PresentationContext OBJECT listed twice (repeated abstract syntax by aliasing)
                     cxs.append(cxs[0])
-                    t.bump("rq_lists_with_aliased_context") if hasattr(t, "bump") else None
+                    T.bump("rq_lists_with_aliased_context")
                 if cfg["route"] == "setter":
                     step = "ae.requested_contexts"
                     ae.requested_contexts = cxs
